@@ -54,6 +54,7 @@ class State(object):
         self.next_cell = 1
         self.cur_args = None
         self.cur_raw = None
+        self.try_kind = 'Result'
         self.anchors = []          # cells allocated by the harness (kept reachable after the root frame returns)
         self.decisions = []
         self.dec_pos = 0
@@ -142,6 +143,7 @@ def clone_state(st):
     n.next_cell = st.next_cell
     n.cur_args = clone_value(st.cur_args, memo) if st.cur_args is not None else None
     n.cur_raw = st.cur_raw
+    n.try_kind = getattr(st, 'try_kind', 'Result')
     n.anchors = [clone_cell(c, memo) for c in st.anchors]
     n.decisions = list(st.decisions)
     n.dec_pos = st.dec_pos
@@ -678,6 +680,12 @@ class Exec(object):
                         b = self.p.by_impl.get((im['file'], im['line'], im['col'], m.group(3)))
                         if b:
                             return self.eval_const_body(st, b.sname, fr)
+        m = re.fullmatch(r'(?:std::result::|core::result::)?Result::<.*>::(Ok|Err)\((.*)\)', s)
+        if m:
+            return Adt('Result', 0 if m.group(1) == 'Ok' else 1, [self.const(st, fr, m.group(2))])
+        m = re.fullmatch(r'(?:std::option::|core::option::)?Option::<.*>::(None|Some\((.*)\))', s)
+        if m:
+            return none() if m.group(1) == 'None' else some(self.const(st, fr, m.group(2)))
         last = s.split('::')[-1]
         sc = self.p.simple_consts.get(last)
         if sc and re.fullmatch(r'[A-Z_][A-Z_0-9]*', last):
